@@ -34,14 +34,14 @@ register("C13",
          "TLA+ model (Merge.tla) + TLC state-graph dump replayed into the implementation (spec->code), TLC trace validation of "
          "recorded histories (code->spec)", "DESIGN.md §4 C13")
 
-register("C12 One MSM object per trajectory serves all lags and both window modes in alternating order, so results may not depend on earlier requests.",
+register("C12",
          "Msm.tla models the window generator as a loop (one action per generator step) with a loop invariant tying the "
          "accumulated counts to the declarative lag-tau count definition; TLC checks it and the result properties (rows, "
          "unit interval, detailed balance, reversal invariance) on ALL trajectories up to length 5 (quick) / 6 (model) over 3 "
          "cells + NaN, all lags, both modes. The same domain (cardinality cross-checked with TLC's initial-state count) is "
          "run through the real MSM class and every returned matrix is validated entry by entry by TLC against the "
          "declarative definition (exact rational comparison via the common denominator 27720), plus random long "
-         "trajectories with NaN runs and tau passed as int/float/str.",
+         "trajectories with NaN runs and tau passed as int/float/str. One MSM object per trajectory serves all lags and both window modes in alternating order, so results may not depend on earlier requests.",
          "Bounded exhaustive domain plus random sampling for long trajectories; float normalisation compared exactly on the "
          "1/27720 lattice and within 1e-6 otherwise.",
          "TLA+ model (Msm.tla) checked by TLC + TLC trace validation of every implementation result (code->spec)",
@@ -70,7 +70,7 @@ register("C19",
          "TLA+ life-cycle model checked by TLC + TLC trace validation of every implementation call (code->spec)",
          "DESIGN.md §4 C19")
 
-register("C18 In addition ALL short histories on fresh objects (divisions without a look in between, get_nodes / get_half_of_hypercube with small N or all, in every position) are executed and validated; the edge set is reported as an advisory only (mechanism, not statement).",
+register("C18",
          "Polytope.tla models subdivision operationally as the code performs it (a node at the midpoint of every edge with "
          "coinciding midpoints identified, edges replaced by halves, extra edges only between nodes of the newest level; "
          "order of the two sub-steps per polytope) over exact integer / Z[phi] lattice coordinates, and TLC shows that it "
@@ -79,14 +79,14 @@ register("C18 In addition ALL short histories on fresh objects (divisions withou
          "history of each real polytope object (create, get_nodes(N) cold/warm, divide_edges, ...) is logged with every "
          "node mapped to exact lattice coordinates and validated by a trace spec that takes the model's own Divide action "
          "for every logged division and compares node order, levels, indices, edges, projection and half selection, and "
-         "checks the prefix relation of all get_nodes results across the history.",
+         "checks the prefix relation of all get_nodes results across the history. In addition ALL short histories on fresh objects (divisions without a look in between, get_nodes / get_half_of_hypercube with small N or all, in every position) are executed and validated; the edge set is reported as an advisory only (mechanism, not statement).",
          "Levels: cube/ico to 3 (quick) / 4 (thorough), hypercube to 1 / 2; float coordinates identified with lattice points "
          "at residual < 1e-9.",
          "TLA+ operational model vs declarative lattice checked by TLC; TLC trace validation of real object histories "
          "re-using the model's action (code->spec)",
          "DESIGN.md §4 C18")
 
-register("C20 One EnergyReader object is used through a history (table and column taken, the returned column shifted and the frame sorted in place, table loaded again).",
+register("C20",
          "Xvg.tla is a line-oriented operational model of EnergyReader (legend scan for s0..s9 up to the first non-header "
          "line, skiprows=13, '@' as comment character) next to the declarative meaning of an xvg file; TLC checks over all "
          "header layouts ('#' 0..14, '@' 0..14, legends at any '@' positions, 0..2 rows) that they coincide inside the "
@@ -94,7 +94,7 @@ register("C20 One EnergyReader object is used through a history (table and colum
          "the envelope (1..10 legends, texts with spaces/dots/brackets, 0..40 rows) plus the shipped GROMACS example, read by "
          "the real EnergyReader (frame, single column, csv round trip) and validated by TLC against the declarative meaning. "
          "Persist.tla models the artefact store (read returns last write); GridWriter -> files -> GridReader events on real "
-         "small grids (digests of values, shape, format and stored index order) are validated by Persist_Trace.",
+         "small grids (digests of values, shape, format and stored index order) are validated by Persist_Trace. One EnergyReader object is used through a history (table and column taken, the returned column shifted and the frame sorted in place, table loaded again).",
          "Energy values on a 6-decimal lattice; legend texts without quotes; grids of the listed small sizes.",
          "TLA+ reader/store models checked by TLC + TLC trace validation of files written and read by the implementation",
          "DESIGN.md §4 C20")
@@ -166,7 +166,7 @@ register("C16",
          "TLA+ rational model checked by TLC + TLC trace validation of the parser on rendered strings",
          "DESIGN.md §4 C16")
 
-register("C05 The direction atoms (cell areas, shared arcs, angles) and the direction adjacency are taken from the brute-force S^2 oracle, not from the grid's own getters.",
+register("C05",
          "Shells.tla states C05 declaratively on integer radii (units 0.05 A, boundaries = midpoints) with every output entry a "
          "pair (rational coefficient, direction atom) and models the construction of the position matrices operationally "
          "(off-diagonals at +-n_o from between_radii[:-1] / increments[1:]+[last], per-shell scaling of the unit-sphere block); "
@@ -175,13 +175,13 @@ register("C05 The direction atoms (cell areas, shared arcs, angles) and the dire
          "modelled slips are negative configs. TLC then acts as evaluator: for 42 (quick) / ~1500 (thorough) combinations of "
          "unequally spaced radial grids (given in several text formats) and real direction grids of all algorithms it writes "
          "the expected structure, and the driver compares EVERY volume, border and distance entry and the three patterns of "
-         "the real PositionGrid (relative 1e-9) plus the ball-volume sum.",
+         "the real PositionGrid (relative 1e-9) plus the ball-volume sum. The direction atoms (cell areas, shared arcs, angles) and the direction adjacency are taken from the brute-force S^2 oracle, not from the grid's own getters.",
          "Direction atoms (area, arc, angle) come from the direction grid's own getters (decided by C03); radii on the 0.1 A "
          "lattice; float comparison at relative 1e-9 done by the driver on expectations computed by TLC.",
          "TLA+ operational-vs-declarative model checked by TLC + TLC evaluator (spec->code) compared entry by entry",
          "DESIGN.md §4 C05")
 
-register("C02 The family that carries the factor is STATE of the trace spec: every grid must use the same family (a grid with one rotation cannot silently drop the factor). The same grid is also evaluated in both position modes and with two factors in one process, and the volumes are asked twice.",
+register("C02",
          "Product.tla models the block assembly of FullGrid._get_N_N operationally (truthy position entries repeated per "
          "rotation at stride n_b, rotation block on the diagonal, sum) against the declarative Cartesian product, and TLC "
          "checks equality, symmetry, empty diagonal and pattern = product of patterns for all pairs of weighted graphs on "
@@ -190,13 +190,13 @@ register("C02 The family that carries the factor is STATE of the trace spec: eve
          "and volumes are logged as value classes with the full matrices in stored order; TLC checks symmetry, empty "
          "diagonal, one pattern and one stored order, positivity, adjacency = product, every border / distance entry = the "
          "position or rotation quantity with f^2 / f on one family (the same for both matrices), and volume(n) = "
-         "posV(n div n_b) * rotV(n mod n_b) * f^3 in cell order.",
+         "posV(n div n_b) * rotV(n mod n_b) * f^3 in cell order. The family that carries the factor is STATE of the trace spec: every grid must use the same family (a grid with one rotation cannot silently drop the factor). The same grid is also evaluated in both position modes and with two factors in one process, and the volumes are asked twice.",
          "Value classes at relative 1e-9; the factor products f*v, f^2*v and posV*rotV*f^3 are computed numerically by the "
          "harness and handed to the spec as lookup tables; grids up to ~300 cells (quick) / ~1000 (thorough).",
          "TLA+ block-assembly model checked by TLC + TLC trace validation of real matrices as value classes",
          "DESIGN.md §4 C02")
 
-register("C14 Two rate matrices are built from the SAME loaded matrices (as in a temperature scan), the reference S/h is copied before the package's code sees the data, and a third solver setting uses a shift INSIDE the spectrum that is no eigenvalue (compared with the dense eigenvalues nearest to the shift).",
+register("C14",
          "Two models: Sqra.tla shows on the exact lattice that a symmetric S/h makes V_i base^(-2k_i) (Boltzmann x volume) "
          "stationary and in detailed balance, and that one asymmetric entry (the shape of the fold defect) breaks it; "
          "Molgri.tla models the pipeline over the artefact store (one directory per grid identifier; BuildGrid, Write, Read, "
@@ -207,13 +207,13 @@ register("C14 Two rate matrices are built from the SAME loaded matrices (as in a
          "Molgri_Trace, which takes the pipeline model's action for every event and checks: digests read = written; the "
          "conductance Q_ij V_i 2^(k_j-k_i)/D recovered from the rate matrix is symmetric, sits exactly on the saved adjacency "
          "and equals S_ij/h_ij of the files in grid order; eigenvalues real, descending, within 1e-6 of the spectral radius "
-         "of a dense solver, largest zero; leading left eigenvector / (V_i exp(-E_i/RT)) constant within 1e-5.",
+         "of a dense solver, largest zero; leading left eigenvector / (V_i exp(-E_i/RT)) constant within 1e-5. Two rate matrices are built from the SAME loaded matrices (as in a temperature scan), the reference S/h is copied before the package's code sees the data, and a third solver setting uses a shift INSIDE the spectrum that is no eigenvalue (compared with the dense eigenvalues nearest to the shift).",
          "Solver clause is a tolerance band (ARPACK vs numpy dense); energies on the lattice k*2RT ln2; connected grids with "
          "n >= 16 cells for the decomposition.",
          "TLA+ pipeline + SqRA models checked by TLC; TLC trace validation of the end-to-end pipeline re-using the model's actions",
          "DESIGN.md §4 C14, §5")
 
-register("C10 Rows with irrational quaternions (0.1 degree rotation scans, a real FullGrid array) are compared with the spec's rotation formula evaluated in floating point; that transliteration is itself checked against TLC's integers on every rational row.",
+register("C10",
          "Rigid.tla models the pseudotrajectory as a state machine over the one mutable moving molecule (per grid row: reset to "
          "the reference geometry, rotate about the centre of mass by the integer rotation matrix of the scalar-last "
          "quaternion, translate, emit) in pure integer arithmetic and TLC checks that every emitted frame is R(q_k) ref + p_k, "
@@ -222,13 +222,13 @@ register("C10 Rows with irrational quaternions (0.1 degree rotation scans, a rea
          "evaluator for non-grid arrays of rational unit quaternions (all integer 4-vectors of norm <= 9, random signs) and "
          "integer positions; five molecules (single atom, linear, planar, two non-planar) are written to files, read through "
          "the package's reader, run through the real Pseudotrajectory (universe and generator) and every atom of every "
-         "frame, molecule 1, frame count, atom order and names are compared (1e-4 A).",
+         "frame, molecule 1, frame count, atom order and names are compared (1e-4 A). Rows with irrational quaternions (0.1 degree rotation scans, a real FullGrid array) are compared with the spec's rotation formula evaluated in floating point; that transliteration is itself checked against TLC's integers on every rational row.",
          "Rotations restricted to rational unit quaternions (dense in SO(3)); float32 coordinates compared at 1e-4 A; molecules "
          "with one element and centred coordinates.",
          "TLA+ integer model of the frame loop checked by TLC + TLC evaluator (spec->code) compared atom by atom",
          "DESIGN.md §4 C10")
 
-register("C11 Some systems are placed away from the origin (molecule 1 not at (0,0,0)), a third of the placements lie within 12 % of the outer shell boundary, non-equidistant radial grids are run without outliers, and the package's own pseudotrajectory of a whole grid must be assigned back to 0..n-1.",
+register("C11",
          "Assign.tla states the assignment as three arg-min decisions over distance tables with a uniqueness margin, the index "
          "composition (t*n_o+o)*n_b+b and the outlier rule; TLC checks on all integer radial grids from a pool and all "
          "distances that 'nearest radius' and 'shell whose midpoint boundaries contain the distance' coincide. The driver "
@@ -236,13 +236,13 @@ register("C11 Some systems are placed away from the origin (molecule 1 not at (0
          "the outer boundary), builds the frames with MDAnalysis directly, lets the real AssignmentTool assign them (both "
          "outlier modes, three molecules incl. a planar one) and logs for every frame the distances of the TRUE placement to "
          "every radius, direction and grid rotation as fixed point; TLC performs arg-min, margin, composition and the NaN "
-         "rule and names the failing index.",
+         "rule and names the failing index. Some systems are placed away from the origin (molecule 1 not at (0,0,0)), a third of the placements lie within 12 % of the outer shell boundary, non-equidistant radial grids are run without outliers, and the package's own pseudotrajectory of a whole grid must be assigned back to 0..n-1.",
          "Distances of the true placement computed numerically by the harness (numpy) from the placement it generated itself; "
          "margin 2e-3; molecules with three distinct principal moments and no atom on a principal axis.",
          "TLA+ decision model checked by TLC + TLC trace validation of the assignment tool on generated placements",
          "DESIGN.md §4 C11")
 
-register("C07 Zero grids requested with N != 1 must still be the single identity / z row.",
+register("C07",
          "Two parts. (1) The exact lattice statement: Polytope.tla/TLC decide on integer coordinates that the nodes of every "
          "level are pairwise distinct, closed under negation and that the canonical half holds exactly one of each "
          "antipodal pair (C18 binds this to the code); the `Rows` events then show that each polytope grid is the first N "
@@ -251,13 +251,13 @@ register("C07 Zero grids requested with N != 1 must still be the single identity
          "algorithm requested BY NAME with N=1, the `Grid` events are validated by TLC: row count, unit norm, pairwise "
          "distinct, separation >= 1/sqrt(N) resp. 0.6/cbrt(N) with the bound computed in the spec by integer search, every "
          "rotation row in the canonical half, no two rows one rotation, double cover = rows followed by exact negatives, "
-         "N=1 by name = z direction / identity.",
+         "N=1 by name = z direction / identity. Zero grids requested with N != 1 must still be the single identity / z row.",
          "Norms, minimal pair distances and sign patterns are computed numerically by the harness (numpy) and logged as fixed "
          "point; sign pattern tolerance 1e-9.",
          "TLA+ lattice model checked by TLC (shared with C18) + TLC trace validation of static grid facts and prefix relation",
          "DESIGN.md §4 C07")
 
-register("C08 The volume getter is exercised with both values of its `approx` argument.",
+register("C08",
          "GridLife.tla models grid objects, the process-global random generator (abstracted to <last seed, draws since>) and "
          "getters, with the library's re-seed discipline inside each call; TLC shows for all interleavings of 2 live objects "
          "x getters x user re-seeding/drawing x dropping that the value of Create(alg,N) and of every getter is a function "
@@ -267,27 +267,27 @@ register("C08 The volume getter is exercised with both values of its `approx` ar
          "borders, distances) is compared bitwise (sha256) by the trace spec with reference digests from two FRESH "
          "processes with other PYTHONHASHSEED and generator state (which must also agree with each other). The prefix "
          "claim is a trace state: the longest per-row digest sequence per algorithm, against which every N (1..45 + "
-         "level boundaries quick; 1..163 / 1..99 / 1..41 + more thorough) and the polytope's own node order are checked.",
+         "level boundaries quick; 1..163 / 1..99 / 1..41 + more thorough) and the polytope's own node order are checked. The volume getter is exercised with both values of its `approx` argument.",
          "Bitwise comparison between executions of the same code on the same machine; generator observed through "
          "numpy.random.seed/shuffle/random; the re-seed discipline itself is reported as an advisory count, not a verdict.",
          "TLA+ interleaving model checked by TLC; TLC -simulate behaviours replayed into the implementation (spec->code) and "
          "their recorded events validated by a trace spec (code->spec)",
          "DESIGN.md §4 C08")
 
-register("C15 Three grids are read through the FullGrid that owns them after it computed its 6D volumes twice and after a caller normalised a returned array in place.",
+register("C15",
          "The structural clauses of C15 are decided by TLC on every logged `Volumes` event: N < 4 returns exactly the equal "
          "share pi^2/N (4 pi/N for directions); for N >= 4 there are N positive values, bitwise the first N of the 2N "
          "double-cover volumes, summing to pi^2 within 12 %; each value lies within 30 % of the measure of the set of "
          "rotations nearest to that grid rotation, where the measure is an independent Monte-Carlo nearest-rotation count "
          "(3e5 samples quick, 2e6 thorough) whose per-cell standard error is handed to the spec and widens the band by 4 "
          "sigma. The life cycle of the getter (pure, history independent) is the GridLife.tla model. cube4D and randomQ, "
-         "every N in 1..24 (quick) / 1..60 + samples to 272 (thorough).",
+         "every N in 1..24 (quick) / 1..60 + samples to 272 (thorough). Three grids are read through the FullGrid that owns them after it computed its 6D volumes twice and after a caller normalised a returned array in place.",
          "The true measures are a Monte-Carlo estimate (numeric trusted base); TLA+ contributes band arithmetic and the "
          "structural clauses only - the weakest use of the specification among the 20 properties (DESIGN §7).",
          "TLC trace validation of volume events against an independent Monte-Carlo oracle; TLA+ life-cycle model",
          "DESIGN.md §4 C15, §7")
 
-register("C06 The extended point set (one extra shell at the last radius plus the last increment) is built by the harness from the radii and directions and must coincide with the implementation's.",
+register("C06",
          "Mechanism: Polygon.tla is an exact operational model of order_points + get_polygon_area on convex lattice polygons "
          "(centroid, reference normal, signed-angle keys compared exactly through cross-multiplied integers, stable sort, "
          "fan triangulation); TLC checks it against the shoelace area for ALL 2 694 (quick) / ~30 000 (thorough) strictly "
@@ -296,7 +296,7 @@ register("C06 The extended point set (one extra shell at the last radius plus th
          "planes by integer affine maps, are replayed into the real functions and validated by TLC against the spec's own "
          "shoelace area. Grids: PositionGrid(cartesian=True) of all algorithms with 1-3 radii against a brute-force R^3 "
          "Voronoi oracle; TLC checks volumes (closed cells) = oracle, positivity, borders/distances symmetric and on the "
-         "adjacency pattern, border = shared face area, distance = Euclidean distance.",
+         "adjacency pattern, border = shared face area, distance = Euclidean distance. The extended point set (one extra shell at the last radius plus the last increment) is built by the harness from the radii and directions and must coincide with the implementation's.",
          "Grid part relative to the numeric oracle harness/oracles/r3.py (all 4-subsets, no scipy.spatial / molgri code), "
          "value classes at 1e-7; extended point sets up to ~60 (quick) / ~90 (thorough) points; cells whose Euclidean region "
          "is open are unconstrained in value.",
